@@ -74,14 +74,34 @@ func dRandBytes(rng *rand.Rand, n int) []byte {
 	return b
 }
 
-// chunks alternate in direction (that is what the index and the cache store), the first direction is random
-func dRandRep(rng *rand.Rand) *dRep {
+// chunks alternate in direction (that is what the index and the cache store), the first direction is random.
+// plant (optional): bytes derived from one of the query's expressions, put into one chunk so that matches,
+// near misses and overlapping candidates are frequent.
+func dRandRep(rng *rand.Rand, plant []byte) *dRep {
 	r := &dRep{sizes: [][2]int{{0, 0}}}
 	n := rng.Intn(6)
+	if plant != nil && n == 0 {
+		n = 1
+	}
+	at := -1
+	if plant != nil {
+		at = rng.Intn(n)
+	}
 	dir := rng.Intn(2)
 	for i := 0; i < n; i++ {
 		l := 1 + rng.Intn(6)
 		b := dRandBytes(rng, l)
+		if rng.Intn(3) == 0 {
+			// runs and short periods: overlapping candidates for suffix / fixed-length shortcuts
+			per := dRandBytes(rng, 1+rng.Intn(2))
+			for i := range b {
+				b[i] = per[i%len(per)]
+			}
+		}
+		if i == at {
+			b = plant
+			l = len(b)
+		}
 		r.data[dir] = append(r.data[dir], b...)
 		r.chunks = append(r.chunks, dChunk{D: "cs"[dir : dir+1], N: l})
 		r.sizes = append(r.sizes, [2]int{len(r.data[0]), len(r.data[1])})
@@ -90,8 +110,32 @@ func dRandRep(rng *rand.Rand) *dRep {
 	return r
 }
 
+// the letters of an expression, framed by a random byte and a repetition of the last letter
+func dPlant(rng *rand.Rand, rxs []string) []byte {
+	if len(rxs) == 0 || rng.Intn(5) < 2 {
+		return nil
+	}
+	rx := rxs[rng.Intn(len(rxs))]
+	letters := []byte{}
+	for i := 0; i < len(rx); i++ {
+		if rx[i] == 'a' || rx[i] == 'b' || rx[i] == 'c' {
+			letters = append(letters, rx[i])
+		}
+	}
+	if len(letters) == 0 || len(letters) > 10 {
+		return nil
+	}
+	p := append(dRandBytes(rng, rng.Intn(2)), letters...)
+	for k := rng.Intn(3); k > 0; k-- {
+		p = append(p, letters[len(letters)-1])
+	}
+	return p
+}
+
 // ---- regular expressions from a small grammar; features name the shortcut classes of search_data.go
-var dAtoms = []string{"a", "b", "c", "ab", "bc", "abc", "ca", "[ab]", "[bc]", ".", "(?:a|bc)", "(?:ab|c)", "a*", "b+", "c?", "[ab]{2}", "a{1,2}", "(?i:A)", "(?i:bC)", `\b`, "^", "$", "(?:b|)", ".*", "[ab]+"}
+var dAtoms = []string{"a", "b", "c", "ab", "bc", "abc", "ca", "[ab]", "[bc]", ".", "(?:a|bc)", "(?:ab|c)", "a*", "b+", "c?", "[ab]{2}", "a{1,2}", "(?i:A)", "(?i:bC)", `\b`, "^", "$", "(?:b|)", ".*", "[ab]+", "aa", "bb", "cc", "aba", "[bc]{2}", ".{2}",
+	// fixed length, no literal prefix, self-overlapping constant suffix (the sliding-window shortcut of find)
+	"[bc]{2}cc", "[ab]{2}aa", ".{2}bb", "[abc]aa", "[ab][ab]bb"}
 
 func dRandRegex(rng *rand.Rand, capture bool) string {
 	n := 1 + rng.Intn(4)
@@ -139,6 +183,8 @@ func dFeatures(rx string) string {
 	return strings.Join(f, "+")
 }
 
+func dCPort(id int) int { return 1234 + id%2 }
+
 func dMakeStream(id int, raw *dRep) *streams.Stream {
 	t0 := time.Date(2022, 1, 2, 3, 0, 0, 0, time.UTC).Add(time.Duration(id) * time.Minute)
 	pi := &pcapmetadata.PcapInfo{Filename: fmt.Sprintf("d%d.pcap", id), Filesize: 1, PacketTimestampMin: t0, PacketTimestampMax: t0.Add(time.Minute), ParseTime: t0.Add(time.Hour), PacketCount: uint(len(raw.chunks) + 2)}
@@ -163,7 +209,7 @@ func dMakeStream(id int, raw *dRep) *streams.Stream {
 	for i := range packets {
 		pcapmetadata.AddPcapMetadata(&packets[i], pi, uint64(i))
 	}
-	return &streams.Stream{ClientAddr: []byte{10, 0, 0, 1}, ServerAddr: []byte{10, 0, 0, 2}, ClientPort: 1234, ServerPort: 80,
+	return &streams.Stream{ClientAddr: []byte{10, 0, 0, 1}, ServerAddr: []byte{10, 0, 0, 2}, ClientPort: uint16(dCPort(id)), ServerPort: 80,
 		Packets: packets, PacketDirections: dirs, Data: data, Flags: streams.StreamFlagsComplete | streams.StreamFlagsProtocolTCP}
 }
 
@@ -284,6 +330,10 @@ func TestVerifDataMatch(t *testing.T) {
 				parts = append(parts, p)
 			}
 			text := strings.Join(parts, " and ")
+			if rng.Intn(3) == 0 {
+				// a cheap metadata filter next to the payload filters: some streams are skipped without reading their payload
+				text = fmt.Sprintf("cport:%d and %s", 1234+rng.Intn(2), text)
+			}
 			q, err := query.Parse(text)
 			if err != nil {
 				skipped["parse: "+strings.SplitN(err.Error(), ":", 2)[0]]++
@@ -296,15 +346,21 @@ func TestVerifDataMatch(t *testing.T) {
 			}
 			type jConj struct {
 				Conds []jCond `json:"conds"`
+				Ports [][2]int `json:"ports"` // number conditions on cport: [factor, number] meaning number + factor*cport >= 0
 			}
 			conjs := []jConj{}
 			dconds := [][]*query.DataCondition{}
 			feats := map[string]bool{}
+			allRx := []string{}
 			pure := true
 			for _, cs := range q.Conditions {
-				jc := jConj{Conds: []jCond{}}
+				jc := jConj{Conds: []jCond{}, Ports: [][2]int{}}
 				dc := []*query.DataCondition{}
 				for _, c := range cs {
+					if nc, ok := c.(*query.NumberCondition); ok && len(nc.Summands) == 1 && nc.Summands[0].SubQuery == "" && nc.Summands[0].Type == query.NumberConditionSummandTypeClientPort {
+						jc.Ports = append(jc.Ports, [2]int{nc.Summands[0].Factor, nc.Number})
+						continue
+					}
 					d, ok := c.(*query.DataCondition)
 					if !ok {
 						pure = false
@@ -317,6 +373,7 @@ func TestVerifDataMatch(t *testing.T) {
 							dd = "s"
 						}
 						j.Els = append(j.Els, map[string]any{"d": dd, "rx": e.Regex})
+						allRx = append(allRx, e.Regex)
 						if len(e.Variables) == 0 {
 							feats[dFeatures(e.Regex)] = true
 						} else {
@@ -352,13 +409,13 @@ func TestVerifDataMatch(t *testing.T) {
 				convs[fmt.Sprintf("c%d", i)] = c
 			}
 			for id := 0; id < nStreams; id++ {
-				raws[id] = dRandRep(rng)
+				raws[id] = dRandRep(rng, dPlant(rng, allRx))
 				if ok, err := w.AddStream(dMakeStream(id, raws[id]), uint64(id)); err != nil || !ok {
 					t.Fatalf("AddStream %v %v", ok, err)
 				}
 				for _, c := range dcs {
 					if rng.Intn(4) != 0 {
-						c.data[uint64(id)] = dRandRep(rng)
+						c.data[uint64(id)] = dRandRep(rng, dPlant(rng, allRx))
 					}
 				}
 			}
@@ -366,7 +423,24 @@ func TestVerifDataMatch(t *testing.T) {
 			if err != nil {
 				t.Fatal(err)
 			}
-			res, _, _, err := SearchStreams(ctx, []*Reader{r}, nil, q.ReferenceTime, q.Conditions, nil, []query.Sorting{{Key: query.SortingKeyID}}, 0, 0, nil, convs, false)
+			var res []*Stream
+			panicked := ""
+			func() {
+				defer func() {
+					if p := recover(); p != nil {
+						panicked = fmt.Sprint(p)
+					}
+				}()
+				res, _, _, err = SearchStreams(ctx, []*Reader{r}, nil, q.ReferenceTime, q.Conditions, nil, []query.Sorting{{Key: query.SortingKeyID}}, 0, 0, nil, convs, false)
+			}()
+			if panicked != "" {
+				js, _ := json.Marshal(map[string]any{"case": caseNo, "stream": -1, "text": text, "feat": strings.Join(fl, ","), "panic": panicked})
+				ow.Write(js)
+				ow.WriteByte('\n')
+				r.Close()
+				os.Remove(r.Filename())
+				continue
+			}
 			r.Close()
 			os.Remove(r.Filename())
 			if err != nil {
@@ -416,7 +490,7 @@ func TestVerifDataMatch(t *testing.T) {
 					skipped["walker: "+bad]++
 					continue
 				}
-				row := map[string]any{"case": caseNo, "stream": id, "text": text, "feat": strings.Join(fl, ","), "conjs": conjs, "reps": jreps, "steps": steps, "real": matched[id]}
+				row := map[string]any{"case": caseNo, "stream": id, "text": text, "feat": strings.Join(fl, ","), "conjs": conjs, "reps": jreps, "steps": steps, "real": matched[id], "cport": dCPort(id)}
 				js, err := json.Marshal(row)
 				if err != nil {
 					t.Fatal(err)
